@@ -388,4 +388,43 @@ theorem k_unmarshal_marshal (d fresh : KState) (hs : KSafe d) (hr : fresh.rate =
   simp only [List.getD_cons_zero, List.getD_cons_succ, e6, e7]
   rw [if_neg (by omega), if_neg (by omega)]
 
+/-- **Reset heals**: on any safe sponge — in particular one restored while squeezing — Reset cannot panic
+    (it is three assignments) and yields an absorbing safe sponge on which Write and Sum succeed. -/
+theorem k_reset_restores (d : KState) (p : Bytes) (hs : KSafe d) :
+    KSafe d.reset ∧ d.reset.dir = 0 ∧ d.reset.n = 0 ∧
+    (∃ d', d.reset.write p = .ok d' ∧ KSafe d') ∧ (∃ o, d.reset.sum = .ok o) := by
+  obtain ⟨h1, h2, h3, _⟩ := k_no_runtime_panic d p hs
+  obtain ⟨g1, g2, _, _⟩ := k_no_runtime_panic d.reset p h3
+  refine ⟨h3, rfl, rfl, ?_, ?_⟩
+  · rcases g1 with ⟨_, hw⟩ | ⟨hd, _⟩
+    · exact hw
+    · exact absurd hd (by show ¬ (0 : Nat) = 1; decide)
+  · rcases g2 with ⟨_, hw⟩ | ⟨hd, _⟩
+    · exact hw
+    · exact absurd hd (by show ¬ (0 : Nat) = 1; decide)
+
+/-- **The two clauses of the property meet on a squeezing sponge.**  Let `d` be a legacy Keccak state after a
+    Read (direction = squeezing).  (a) MarshalBinary/UnmarshalBinary restore it exactly — the *transparency*
+    clause; (b) on the original, Write and Sum raise the documented `panic("sha3: … after Read")`; hence
+    (c) the restored copy must raise the same panic, so "UnmarshalBinary returns an error or a state on which
+    Write and Sum never panic" cannot also hold for this input without breaking (a).  The code chooses (a);
+    the panic is the API's, never a bounds error (`k_no_runtime_panic`), and Reset clears it
+    (`k_reset_restores`). -/
+theorem k_squeezing_clauses (d fresh : KState) (p : Bytes) (hs : KSafe d) (hdir : d.dir = 1)
+    (hr : fresh.rate = d.rate) (ho : fresh.outputLen = d.outputLen) :
+    fresh.unmarshal d.marshal = (none, d) ∧
+    d.write p = .error .api ∧ d.sum = .error .api ∧
+    (fresh.unmarshal d.marshal).2.write p = .error .api ∧ (fresh.unmarshal d.marshal).2.sum = .error .api ∧
+    (∃ o, (fresh.unmarshal d.marshal).2.reset.sum = .ok o) := by
+  have hrt := k_unmarshal_marshal d fresh hs hr
+  have heq : ({ fresh with a := d.a, n := d.n, dir := d.dir } : KState) = d := by
+    cases d; cases fresh; simp_all
+  rw [heq] at hrt
+  have hw : d.write p = .error .api := by simp [KState.write, hdir]
+  have hsum : d.sum = .error .api := by simp [KState.sum, hdir]
+  refine ⟨hrt, hw, hsum, ?_, ?_, ?_⟩
+  · rw [hrt]; exact hw
+  · rw [hrt]; exact hsum
+  · rw [hrt]; exact (k_reset_restores d p hs).2.2.2.2
+
 end XC.C07
